@@ -313,6 +313,83 @@ def run_client(ch, ops_, max_pool_size, idle, granularity):
     return s, pc, net, problems
 
 
+def run_client_fresh(ch, ops_, max_pool_size, idle, granularity):
+    """H4: like H3, but the harness does not touch the PooledClient between construction and the threads'
+    first operations (nothing is warmed up or looked at), so whatever the client sets up on first use is
+    set up under the scheduler.  Checkout/release/destroy are observed at class level; the size and
+    no-duplicates invariant is taken over every pool object the client has used."""
+    ins = instrument(granularity)
+    s = sched.Sched(ch)
+    SHIM.current = s
+    net = stacks.new_net(None, servers=(stacks.H1,))
+    preload(net)
+    net.sched = s
+    pc = PooledClient(stacks.H1, socket_module=net.module(), max_pool_size=max_pool_size, pool_idle_timeout=idle,
+                      lock_generator=lambda: sched.SimLock(s), default_noreply=False)
+    holder = {}
+    problems = []
+    pools = []
+    cls = pool_mod.ObjectPool
+    orig = (cls.get, cls.release, cls.destroy)
+
+    def get(self):
+        if not any(p is self for p in pools):
+            pools.append(self)
+        o = orig[0](self)
+        t = s.current()
+        if holder.get(id(o)) is not None and holder[id(o)] is not t:
+            problems.append(f"a pooled connection was handed to thread {t.tid} while thread {holder[id(o)].tid} still holds it")
+        holder[id(o)] = t
+        return o
+
+    def release(self, o, silent=True):
+        holder[id(o)] = None
+        return orig[1](self, o, silent)
+
+    def destroy(self, o, silent=True):
+        holder[id(o)] = None
+        return orig[2](self, o, silent)
+
+    def guard(sock, what):
+        t = s.current()
+        o = sock.owner
+        if t is None or o is None:
+            return
+        h = holder.get(id(o))
+        if what in ("sendall", "recv") and h is not t:
+            problems.append(f"thread {t.tid} does {what} on a pooled connection it does not hold "
+                            f"(holder: {'nobody' if h is None else 'thread %d' % h.tid})")
+
+    net.socket_guard = guard
+
+    def invariant():
+        used = [o for p in pools for o in p._used_objs]
+        free = [o for p in pools for o in p._free_objs]
+        limit = max_pool_size if max_pool_size is not None else 2 ** 31
+        if len(used) + len(free) > limit:
+            return (f"{len(used)} used + {len(free)} idle pooled connections exist"
+                    f"{' (in %d pool objects)' % len(pools) if len(pools) > 1 else ''}, max_pool_size is {max_pool_size}")
+        allo = used + free
+        if len({id(o) for o in allo}) != len(allo):
+            return "a connection is listed twice in the pool"
+        if problems:
+            return problems[0]
+        return None
+
+    s.invariant = invariant
+    for op in ops_:
+        s.add(client_program(op, pc))
+    cls.get, cls.release, cls.destroy = get, release, destroy
+    ins.sched = s
+    try:
+        s.run()
+    finally:
+        ins.sched = None
+        net.sched = None
+        cls.get, cls.release, cls.destroy = orig
+    return s, pc, net, problems
+
+
 def judge_client(s, pc, net, problems, ops_, max_pool_size):
     out = []
     pool = pc.client_pool
@@ -362,6 +439,10 @@ def client_harnesses(tier):
         for mps in (1, 2):
             if tier == "quick":
                 hs.append(("H3", ops_, mps, "L"))
+    # first use of a fresh PooledClient by two threads at once
+    for ops_ in [("get", "set"), ("get", "fail"), ("get", "quit")]:
+        for mps in (1, 2):
+            hs.append(("H4", ops_, mps, 0))
     hs.append(("H3", ("get", "set"), 2, 10))
     hs.append(("H3", ("get", "set", "fail"), 2, 0))
     hs.append(("H3", ("get", "close"), 2, 0))
@@ -398,6 +479,8 @@ def _worker(job, chk):
     def run(ch):
         if kind in ("H1", "H2"):
             return run_pool(ch, h[1], h[2], h[3], gran)
+        if kind == "H4":
+            return run_client_fresh(ch, h[1], h[2], h[3], gran)
         return run_client(ch, h[1], h[2], 0 if h[3] == "L" else h[3], gran)
 
     def outcome_of(res):
@@ -462,7 +545,10 @@ def replay(detail):
         res = run_pool(ch, h[1], h[2], h[3], gran)
         bad = judge_pool(*res, h[1], h[2])
     else:
-        res = run_client(ch, h[1], h[2], 0 if h[3] == "L" else h[3], gran)
+        if h[0] == "H4":
+            res = run_client_fresh(ch, h[1], h[2], h[3], gran)
+        else:
+            res = run_client(ch, h[1], h[2], 0 if h[3] == "L" else h[3], gran)
         bad = judge_client(*res, h[1], h[2])
     print("    schedule:", ch.trace)
     for t in res[0].threads:
